@@ -8,6 +8,9 @@
   found by this check with replays, repaired by a fix: commit.
 -/
 import GoldilocksVerif.Lemmas.MerkleL
+import GoldilocksVerif.Lemmas.BridgeMerkle
+import GoldilocksVerif.Lemmas.BridgePerm
+import GoldilocksVerif.Lemmas.BridgeMerkleAvx
 
 namespace GoldilocksVerif.C08
 open GoldilocksVerif.Model
@@ -62,6 +65,93 @@ theorem C08_batch_leaf_single_batch (lh : List Wd → List Wd) (cols dim batch :
   simp only [List.range_one, List.map_cons, List.map_nil, Nat.sub_self, Nat.zero_mul, Nat.sub_zero, if_true, List.drop_zero,
     List.flatten_cons, List.flatten_nil, List.append_nil]
   rw [← hrow, List.take_of_length_le (Nat.le_refl _)]
+
+/-! ## The same statement about the TRANSLATED builders `merkletree_seq` and `merkletree_avx`
+
+  `Gen.MerkleGen.Pos_merkletree_seq / Pos_merkletree_avx` are regenerated from poseidon_goldilocks.cpp on every run (the two
+  `#pragma omp parallel for` loops sequentially, `while (pending > 1)` as a fuel-bounded fold, `floor((pending - 1) / 2) + 1`
+  through doubles holding integers).  For rows = 2^k (k ≤ 48), rows·cols·dim < 2^64, every tree / input region, every
+  `nThreads`, every fuel > rows and > cols·dim: the builder returns, the first 4·(2·rows − 1) words of the tree buffer are
+  `Model.merkleTree` of the rows (row i = input words i·cols·dim … (i+1)·cols·dim − 1), nothing beyond them is written.
+  Hence C08_buffer_size / C08_leaves_first / C08_root_is_last_four apply to what the translated code builds.
+  Proofs: Lemmas/BridgeMerkle.lean (generic in the two hashes), Lemmas/BridgeSponge.lean, Lemmas/BridgePerm.lean. -/
+
+/-- translated `merkletree_seq`, no hypothesis on the hashes: leaf = sponge with the translated scalar permutation,
+    node = translated `hash_seq` of the eight words zero-padded to twelve -/
+theorem C08_generated_merkletree_seq (fuel : Nat) (tree input : GoldilocksVerif.Region) (num_cols num_rows : BitVec 64)
+    (nThreads : Int) (dim : BitVec 64) (k : Nat)
+    (hR : num_rows.toNat = 2 ^ k) (hk : k ≤ 48) (hprod : 2 ^ k * (num_cols.toNat * dim.toNat) < 2 ^ 64)
+    (hf1 : num_cols.toNat * dim.toNat < fuel) (hf2 : 2 ^ k < fuel) :
+    ∃ t, Gen.MerkleGen.Pos_merkletree_seq fuel tree input num_cols num_rows nThreads dim = some t ∧
+      GoldilocksVerif.Region.toList t (4 * (2 * 2 ^ k - 1)) =
+        merkleTree (linearHash GoldilocksVerif.permSeqList) (fun x => GoldilocksVerif.nodeSeqList (x ++ zeros 4))
+          (GoldilocksVerif.rowsOf input (num_cols.toNat * dim.toNat) (2 ^ k)) ∧
+      ∀ i, 4 * (2 * 2 ^ k - 1) ≤ i → t i = tree i := by
+  rw [GoldilocksVerif.mt_seq_generic]
+  refine GoldilocksVerif.mtGenG_spec _ (linearHash GoldilocksVerif.permSeqList) ?_ _ GoldilocksVerif.nodeSeqList
+    GoldilocksVerif.hash_seq_node fuel tree input num_cols num_rows nThreads dim k hR hk hprod hf1 hf2
+  intro fuel out inp size hf
+  rw [GoldilocksVerif.lh_seq_generic]
+  exact GoldilocksVerif.lhGenG_spec _ GoldilocksVerif.permSeqList GoldilocksVerif.perm_seq_hP fuel out inp size hf
+
+/-- translated `merkletree_avx`: the same statement for every list function `perm` describing the translated AVX2
+    permutation on its first twelve words (`hP`) and every `nodeF` describing the translated `hash` (`hH`) -/
+theorem C08_generated_merkletree_avx (perm nodeF : List Wd → List Wd)
+    (hP : ∀ s, GoldilocksVerif.Region.toList (Gen.LinearHashGen.Pos_hash_full_result_al_state_input s) 12 =
+      perm (GoldilocksVerif.Region.toList s 12))
+    (hH : GoldilocksVerif.NodeHash Gen.PosAvx2.Pos_hash nodeF)
+    (fuel : Nat) (tree input : GoldilocksVerif.Region) (num_cols num_rows : BitVec 64)
+    (nThreads : Int) (dim : BitVec 64) (k : Nat)
+    (hR : num_rows.toNat = 2 ^ k) (hk : k ≤ 48) (hprod : 2 ^ k * (num_cols.toNat * dim.toNat) < 2 ^ 64)
+    (hf1 : num_cols.toNat * dim.toNat < fuel) (hf2 : 2 ^ k < fuel) :
+    ∃ t, Gen.MerkleGen.Pos_merkletree_avx fuel tree input num_cols num_rows nThreads dim = some t ∧
+      GoldilocksVerif.Region.toList t (4 * (2 * 2 ^ k - 1)) =
+        merkleTree (linearHash perm) (fun x => nodeF (x ++ zeros 4))
+          (GoldilocksVerif.rowsOf input (num_cols.toNat * dim.toNat) (2 ^ k)) ∧
+      ∀ i, 4 * (2 * 2 ^ k - 1) ≤ i → t i = tree i := by
+  rw [GoldilocksVerif.mt_avx_generic]
+  refine GoldilocksVerif.mtGenG_spec _ (linearHash perm) ?_ _ nodeF hH fuel tree input num_cols num_rows nThreads dim k
+    hR hk hprod hf1 hf2
+  intro fuel out inp size hf
+  rw [GoldilocksVerif.lh_avx_generic]
+  exact GoldilocksVerif.lhGenG_spec _ perm hP fuel out inp size hf
+
+/-- translated `merkletree_avx`, WITHOUT hypotheses on the hashes: leaf = sponge over the translated AVX2 permutation
+    (`permAvxList`), node = translated AVX2 `hash` of the eight words zero-padded to twelve (`nodeAvxList`) -/
+theorem C08_generated_merkletree_avx_is_tree (fuel : Nat) (tree input : GoldilocksVerif.Region) (num_cols num_rows : BitVec 64)
+    (nThreads : Int) (dim : BitVec 64) (k : Nat)
+    (hR : num_rows.toNat = 2 ^ k) (hk : k ≤ 48) (hprod : 2 ^ k * (num_cols.toNat * dim.toNat) < 2 ^ 64)
+    (hf1 : num_cols.toNat * dim.toNat < fuel) (hf2 : 2 ^ k < fuel) :
+    ∃ t, Gen.MerkleGen.Pos_merkletree_avx fuel tree input num_cols num_rows nThreads dim = some t ∧
+      GoldilocksVerif.Region.toList t (4 * (2 * 2 ^ k - 1)) =
+        merkleTree (linearHash GoldilocksVerif.permAvxList) (fun x => GoldilocksVerif.nodeAvxList (x ++ zeros 4))
+          (GoldilocksVerif.rowsOf input (num_cols.toNat * dim.toNat) (2 ^ k)) ∧
+      ∀ i, 4 * (2 * 2 ^ k - 1) ≤ i → t i = tree i :=
+  C08_generated_merkletree_avx GoldilocksVerif.permAvxList GoldilocksVerif.nodeAvxList GoldilocksVerif.perm_avx_hP
+    GoldilocksVerif.hash_avx_node fuel tree input num_cols num_rows nThreads dim k hR hk hprod hf1 hf2
+
+/-- so the root the translated scalar builder leaves in the last four words of the buffer is the recursive pairwise hash of the
+    row digests (C08_root_is_last_four on what the translated code builds) -/
+theorem C08_generated_merkletree_seq_root (fuel : Nat) (tree input t : GoldilocksVerif.Region) (num_cols num_rows : BitVec 64)
+    (nThreads : Int) (dim : BitVec 64) (k : Nat)
+    (hR : num_rows.toNat = 2 ^ k) (hk : k ≤ 48) (hprod : 2 ^ k * (num_cols.toNat * dim.toNat) < 2 ^ 64)
+    (hf1 : num_cols.toNat * dim.toNat < fuel) (hf2 : 2 ^ k < fuel)
+    (ht : Gen.MerkleGen.Pos_merkletree_seq fuel tree input num_cols num_rows nThreads dim = some t) :
+    (GoldilocksVerif.Region.toList t (4 * (2 * 2 ^ k - 1))).drop (4 * (2 * 2 ^ k - 1) - 4) =
+      rootOf (fun x => GoldilocksVerif.nodeSeqList (x ++ zeros 4)) k
+        ((GoldilocksVerif.rowsOf input (num_cols.toNat * dim.toNat) (2 ^ k)).flatMap (linearHash GoldilocksVerif.permSeqList)) := by
+  obtain ⟨t', ht', hM, _⟩ := C08_generated_merkletree_seq fuel tree input num_cols num_rows nThreads dim k hR hk hprod hf1 hf2
+  rw [ht] at ht'
+  cases ht'
+  have hlen : (GoldilocksVerif.rowsOf input (num_cols.toNat * dim.toNat) (2 ^ k)).length = 2 ^ k := by
+    simp [GoldilocksVerif.rowsOf]
+  have hroot := C08_root_is_last_four (linearHash GoldilocksVerif.permSeqList)
+    (fun x => GoldilocksVerif.nodeSeqList (x ++ zeros 4))
+    (GoldilocksVerif.linearHash_length _ (fun s => by rw [GoldilocksVerif.permSeqList_length]; omega))
+    (fun x => GoldilocksVerif.nodeSeqList_length _) _ k hlen
+  rw [← hM] at hroot
+  rw [GoldilocksVerif.Region.length_toList] at hroot
+  exact hroot
 
 /-- non-vacuity: four rows give a 28-element buffer -/
 example : (merkleTree (fun r => r.take 4) (fun x => x.take 4) [[1,2,3,4],[5,6,7,8],[9,10,11,12],[13,14,15,16]]).length = 28 := by
